@@ -20,7 +20,12 @@ var c16Ops = []string{
 	"B loses A (fail+rejoin)", "C joins", "A:c3 subscribes t3", "hold acks B->A", "release acks B->A",
 	"A sees B fail (B keeps its session for A)", "A sees B join again (new peer object and session id)",
 	"B sees A fail (A keeps its peer object and retries)", "B sees A join again",
+	"A:message on m/x, the stream breaks for A while the event is in the pipe, B's handler of the old stream gets it only after A's next handshake was answered",
+	"A:message on m/x is written to the stream and lost with it (the stream breaks before B reads it)",
 }
+
+// c16LateAlpha: the tree about events that the receiver gets late from an old stream.
+var c16LateAlpha = []int{20, 21, 4, 6, 7, 0, 1}
 
 // c16MainN: the main tree uses the first c16MainN operations; the last two only occur in
 // the tree about a node that loses and re-creates its peer object.
@@ -179,6 +184,23 @@ func c16Apply(st *c16State, op int) bool {
 		}
 		st.bLostA = true
 		st.b.Fail("A")
+	case 20, 21:
+		if st.down || st.held || st.aLostB || st.bLostA || !st.nw.HoldReceiver("A", "B") {
+			return false
+		}
+		st.nmsg++
+		pl := fmt.Sprintf("p%d", st.nmsg)
+		st.a.MsgArrived(&gmqtt.Message{Topic: "m/x", Payload: []byte(pl)})
+		st.emitted = append(st.emitted, "m/x="+pl)
+		if st.cJoined {
+			st.emittedC = append(st.emittedC, "m/x="+pl)
+		}
+		vsched.Settle() // the event is in the pipe, B cannot read it yet
+		if op == 21 {
+			st.nw.CutLosing("A", "B")
+		} else {
+			st.nw.CutLate("A", "B")
+		}
 	case 19:
 		if !st.bLostA {
 			return false
@@ -382,7 +404,7 @@ func c16ResyncConcurrent(obs *c16Obs, variant int) func() {
 
 func runC16(c *explore.Ctx) {
 	c.Level = "model_checking"
-	c.Rule = "E2 on the real federation code in-package (eventQueue, peer.initStream, stream read/send loops, Hello, sessionMgr, EventStream server loop, eventStreamHandler, fedSubStore, localSubStore, nodeJoin/nodeFail, hook wrappers) with serf and gRPC replaced by a fault-injectable in-memory transport under the cooperative scheduler: every sequence of 14 operations (emit subscribe / unsubscribe / shared subscribe / session end / message; cut now, cut between delivery and ack, cut after ack, lost Hello reply, link down/up, peer loses the session, third node joins) up to the depth, plus directed prefixes, plus a tree over an 11-operation alphabet in which the node itself sees the peer fail and join again (new peer object and session id while the peer still holds the old session), or the peer sees the node fail and join again as two separate steps (the node's handshakes are refused in between); subscriptions change in between; after every operation at quiescence: the peer's view equals the node's local subscriptions, the queue is fully acknowledged, messages were applied exactly once and in order. E3: concurrent emitters and a fault thread, and a full resynchronisation (peer lost the session / node re-created its peer object) racing subscription changes of the node, under every schedule with <=k deviations."
+	c.Rule = "E2 on the real federation code in-package (eventQueue, peer.initStream, stream read/send loops, Hello, sessionMgr, EventStream server loop, eventStreamHandler, fedSubStore, localSubStore, nodeJoin/nodeFail, hook wrappers) with serf and gRPC replaced by a fault-injectable in-memory transport under the cooperative scheduler: every sequence of 14 operations (emit subscribe / unsubscribe / shared subscribe / session end / message; cut now, cut between delivery and ack, cut after ack, lost Hello reply, link down/up, peer loses the session, third node joins) up to the depth, plus directed prefixes, plus a tree over an 11-operation alphabet in which the node itself sees the peer fail and join again (new peer object and session id while the peer still holds the old session), or the peer sees the node fail and join again as two separate steps (the node's handshakes are refused in between); subscriptions change in between; plus a tree (depth+1) in which an event is still in the pipe when the sender sees the stream break and the receiver's old handler gets it only after the sender's next handshake was answered (the event then arrives twice), or is lost with the stream; after every operation at quiescence: the peer's view equals the node's local subscriptions, the queue is fully acknowledged, messages were applied exactly once and in order. E3: concurrent emitters and a fault thread, and a full resynchronisation (peer lost the session / node re-created its peer object) racing subscription changes of the node, under every schedule with <=k deviations."
 	c.Trusted = []string{"fake transport: whole messages are delivered or an error is returned (gRPC's observable granularity); serf replaced by direct nodeJoin/nodeFail calls; the reconnect loop's back-off timers are not modelled", "vsched"}
 	c.Assumptions = []string{"after the peer lost the session (fail + rejoin) only the resynchronised subscription view and 'no message applied twice' are required"}
 	if rc := replayCase(c); rc != nil {
@@ -398,6 +420,13 @@ func runC16(c *explore.Ctx) {
 		full := make([]int, len(seq))
 		for i, e := range seq {
 			full[i] = c16PeerLossAlpha[e]
+		}
+		return c16Run(c, full)
+	})
+	treeUnits(c, "tree-late-delivery", len(c16LateAlpha), depth+1, func(seq []int) int {
+		full := make([]int, len(seq))
+		for i, e := range seq {
+			full[i] = c16LateAlpha[e]
 		}
 		return c16Run(c, full)
 	})
